@@ -395,7 +395,153 @@ def rule_q3(ctx, facts):
              "HashMap is only ever built in with_hasher" if only == {"map::HashMap::with_hasher"} else "HashMap values are built in %s" % sorted(only))
 
 
+def rule_q4(ctx, facts):
+    """split by the hash bit: entries with hash & n == 0 go to bin i of the new table, the others to bin i + n"""
+    from .analysis import dominators, dominates
+    from .affine import canon_place
+    tr = facts.body("map::HashMap::transfer")
+    ev = evaluator(tr)
+    fl = flow(tr)
+    # hash-bit values: BitAnd(hash, n)
+    bitvals = {}
+    bad_mask = []
+    for bi, blk in enumerate(tr.blocks):
+        if blk["cleanup"]:
+            continue
+        for si, st in enumerate(blk["stmts"]):
+            if st["k"] == "assign" and st["rv"].get("bin") == "BitAnd" and not st["dst"]["proj"]:
+                ops = [st["rv"]["a"], st["rv"]["b"]]
+                forms = [ev.operand(o) for o in ops]
+                is_hash = [f is not TOP and len(f.symbols()) == 1 and next(iter(f.symbols()))[0] == "place" and next(iter(f.symbols()))[2][-1:] == ("hash",) for f in forms]
+                if not any(is_hash):
+                    continue
+                other = forms[1] if is_hash[0] else forms[0]
+                okn = other is not TOP and len(other.symbols()) == 1 and other.c == 0 and all(
+                    s0[0] == "call" and callee_str(tr.call_at(s0[1])).endswith("Table::len") and v == 1 for s0, v in other.terms.items())
+                if okn:
+                    bitvals[st["dst"]["local"]] = st["span"]
+                else:
+                    bad_mask.append((st["span"], other.show(tr) if other is not TOP else "?"))
+    for span, m in bad_mask:
+        ctx.inst("Q4", tr, "hash bit mask", span, False, "a node's hash is masked with %s instead of the old table length n: the split no longer separates index i from i + n" % m)
+    if len(bitvals) < 4 and not bad_mask:
+        ctx.fail_closed("Q4: expected the four `hash & n` computations of transfer, found %d" % len(bitvals))
+        return
+    # named locals that carry such a bit (run_bit, b)
+    carriers = set(bitvals)
+    for l in range(len(tr.locals)):
+        for kind, data, pt in fl.sources(l):
+            if kind == "copy" and data in carriers:
+                carriers.add(l)
+    changed = True
+    while changed:
+        changed = False
+        for l in range(len(tr.locals)):
+            if l in carriers:
+                continue
+            srcs = fl.sources(l)
+            if srcs and all(kind == "copy" and data in carriers for kind, data, pt in srcs):
+                carriers.add(l)
+                changed = True
+    low, high = set(), set()
+    n_tests = 0
+    idom_ok = lambda a, b: dominates(tr, Point(a, 0), Point(b, 0), unwind=False)
+    for blk in range(len(tr.blocks)):
+        cd = cond_of(tr, blk)
+        if not cd or cd["kind"] != "cmp" or cd["op"] not in ("Eq", "Ne"):
+            continue
+        la, lb = op_local(cd["a"]), op_local(cd["b"])
+        fa, fb = ev.operand(cd["a"]), ev.operand(cd["b"])
+        side = None
+        if la in carriers and fb is not TOP and fb.is_const() and fb.c == 0:
+            side = "a"
+        elif lb in carriers and fa is not TOP and fa.is_const() and fa.c == 0:
+            side = "b"
+        if side is None:
+            continue
+        n_tests += 1
+        zero, nonzero = (cd["true"], cd["false"]) if cd["op"] == "Eq" else (cd["false"], cd["true"])
+        for tgt, acc in ((zero, low), (nonzero, high)):
+            other = nonzero if tgt == zero else zero
+            for b2 in range(len(tr.blocks)):
+                if tr.is_cleanup(b2) or not dominated_by_edge(tr, Point(b2, 0), [(blk, tgt)]):
+                    continue
+                for st in tr.blocks[b2]["stmts"]:
+                    if st["k"] != "assign":
+                        continue
+                    if not st["dst"]["proj"] and tr.local_name(st["dst"]["local"]):
+                        acc.add(st["dst"]["local"])
+                    rv = st["rv"]
+                    if "ref" in rv and rv.get("mut") and not rv["ref"]["proj"] and tr.local_name(rv["ref"]["local"]):
+                        acc.add(rv["ref"]["local"])
+                c = tr.call_at(b2)
+                if c is not None and c.dst_local() is not None and tr.local_name(c.dst_local()):
+                    acc.add(c.dst_local())
+    both = low & high
+    # run_bit itself and loop-local temporaries are assigned on both sides; what matters are the list heads
+    ptr = lambda l: tr.ty(l).get("base") == "reclaim::Shared" and tr.ty(l).get("refs", 0) == 0
+    lowp, highp = {l for l in low - both if ptr(l)}, {l for l in high - both if ptr(l)}
+    amb = {l for l in both if ptr(l)}
+    if n_tests < 3:
+        ctx.fail_closed("Q4: expected at least three tests of the hash bit against 0 in transfer, found %d" % n_tests)
+        return
+    ctx.inst("Q4", tr, "low / high lists are fed from opposite edges of the hash-bit test", tr.span, bool(lowp) and bool(highp) and not amb,
+             "zero edge feeds %s, non-zero edge feeds %s" % (sorted({tr.local_name(l) for l in lowp}), sorted({tr.local_name(l) for l in highp})) if lowp and highp and not amb else
+             "the list(s) %s receive nodes on both edges of the `hash & n == 0` test: entries of both halves end up in one bin" % sorted({tr.local_name(l) for l in amb}))
+
+    def named_sources(l, depth=0, seen=None):
+        seen = seen if seen is not None else set()
+        out = set()
+        stack = [l]
+        while stack:
+            x = stack.pop()
+            if x in seen:
+                continue
+            seen.add(x)
+            if tr.local_name(x) and ptr(x):
+                out.add(x)
+            roots, locs = fl.roots(x)
+            for y in locs:
+                if tr.local_name(y) and ptr(y):
+                    out.add(y)
+            for r in roots:
+                if r[0] == "call":
+                    c = tr.call_at(r[1])
+                    for a in c.args:
+                        ar = op_root(a)
+                        if ar is not None and (ptr(ar) or tr.ty(ar).get("base") in ("node::TreeBin", "node::BinEntry")):
+                            stack.append(ar)
+        return out
+    fwd_old = None
+    for c in tr.calls:
+        if not callee_str(c).endswith("raw::Table::store_bin") or tr.is_cleanup(c.b):
+            continue
+        idx = ev.operand(c.args[1])
+        vl = op_root(c.args[2])
+        if idx is TOP or vl is None:
+            continue
+        srcs = named_sources(vl)
+        has_len = any(s0[0] == "call" and callee_str(tr.call_at(s0[1])).endswith("Table::len") for s0 in idx.symbols())
+        is_moved = any(callee_str(x).endswith("get_moved") for x in fl.call_roots(vl) if x is not None)
+        if is_moved:
+            continue
+        if has_len:
+            ok = bool(srcs & highp) and not (srcs & lowp)
+            ctx.inst("Q4", tr, "bin i + n receives the non-zero half", c.span, ok,
+                     "value derives from %s" % sorted({tr.local_name(l) for l in srcs & highp}) if ok else
+                     "the bin at index i + n is filled from %s, the list that collects the entries with hash & n == 0" % sorted({tr.local_name(l) for l in srcs & lowp}) if srcs & lowp else
+                     "the value stored at i + n does not derive from the list fed on the non-zero edge")
+        else:
+            ok = bool(srcs & lowp) and not (srcs & highp)
+            ctx.inst("Q4", tr, "bin i receives the zero half", c.span, ok,
+                     "value derives from %s" % sorted({tr.local_name(l) for l in srcs & lowp}) if ok else
+                     "the bin at index i is filled from %s, the list that collects the entries with hash & n != 0" % sorted({tr.local_name(l) for l in srcs & highp}) if srcs & highp else
+                     "the value stored at i does not derive from the list fed on the zero edge")
+
+
 def run(ctx, facts):
+    ctx.rule("Q4", "transfer splits a bin by the bit `hash & n`: the zero half is stored at index i of the new table, the other half at i + n", floor=5)
+    rule_q4(ctx, facts)
     ctx.rule("Q1", "the entry count is adjusted exactly once per link (put) / unlink (compute_if_present, replace_node, clear), on every feasible path", floor=6)
     ctx.rule("Q2", "single finisher and complete publication (rule Z1)", floor=2)
     ctx.rule("Q3", "every Table::new length has power-of-two provenance", floor=5, floor_note="init_table, presize, try_presize, transfer + aux")
